@@ -257,7 +257,7 @@ class C07(Check):
             feats0.append("same-module-twice")
         for action in ACTIONS:
             for prefs in tier_prefs:
-                key = [action, sorted(prefs.items())]
+                key = [action, [list(kv) for kv in sorted(prefs.items())]]     # JSON shape, so that a replayed case compares equal
                 if "only" in case and case["only"] != key:
                     continue
                 res["n"] += 1
